@@ -28,7 +28,7 @@ ROOT = "main"
 FUEL = 400
 RUN_FN = "run_case"
 CHUNK = 60
-RAW_SUFFIX = ":inline-snippet"
+RAW_SUFFIX = ":raw-source"
 
 # ============================================================================ generator AST
 # path  = (root, [seg...])            seg: str (key) | int (index) | ("sub", root, [str|int...]) (a nested path)
@@ -1188,6 +1188,19 @@ RAW = [
             "{% render a %}{% render b %}"}, [{"x": "X", "y": "y"}]),
     ({ROOT: "{% snippet a %}{{ x }}{% endsnippet %}{% render a %}{% render a, x: 1 %}"}, [{"x": "X"}]),
     ({ROOT: "{% snippet a %}{{ x | downcase }}{% endsnippet %}{% for i in (1..2) %}{% render a, i: i %}{% endfor %}"}, [{"x": "X"}]),
+    # loop arguments (limit / offset / cols / reversed are outside the mini language): every argument that a render reads must be
+    # reported, whichever of the other arguments are present
+    ({ROOT: "{% for i in xs offset: skip %}{{ i }}{% endfor %}"}, [{"xs": [1, 2, 3], "skip": 1}]),
+    ({ROOT: "{% for i in xs limit: lim %}{{ i }}{% endfor %}"}, [{"xs": [1, 2, 3], "lim": 2}]),
+    ({ROOT: "{% for i in xs limit: lim offset: skip reversed %}{{ i }}{% endfor %}"}, [{"xs": [1, 2, 3], "lim": 2, "skip": 1}]),
+    ({ROOT: "{% for i in xs reversed offset: o.skip %}{{ i }}{{ forloop.index }}{% endfor %}"}, [{"xs": [1, 2, 3], "o": {"skip": 1}}]),
+    ({ROOT: "{% tablerow i in xs cols: c %}{{ i }}{% endtablerow %}"}, [{"xs": [1, 2, 3], "c": 2}]),
+    ({ROOT: "{% tablerow i in xs offset: skip cols: c %}{{ i }}{% endtablerow %}"}, [{"xs": [1, 2, 3], "c": 2, "skip": 1}]),
+    ({ROOT: "{% tablerow i in xs limit: lim cols: c %}{{ i }}{{ tablerowloop.col }}{% endtablerow %}"}, [{"xs": [1, 2, 3], "c": 2, "lim": 2}]),
+    ({ROOT: "{% for i in (lo..hi) offset: skip %}{{ i }}{% endfor %}{% for j in (1..hi) limit: lim %}{{ j }}{% endfor %}"},
+     [{"lo": 1, "hi": 3, "skip": 1, "lim": 1}]),
+    ({ROOT: "{% render 'p' for xs as it, extra: e %}", "p": "{% for k in it offset: off %}{{ k }}{{ extra }}{% endfor %}"},
+     [{"xs": [[1, 2], [3]], "e": "E", "off": 1}]),
 ]
 
 
@@ -1256,7 +1269,7 @@ def run(ck: Check) -> None:
         "each other; partials are included and rendered several times from different scopes. Seventeen seeds (witnesses of the repaired "
         "defects, their neighbours, one program per added construct) run first; then seeded random programs: 6/8 'tame' (acyclic, "
         "include only where it can run), 1/8 'norules' (acyclic, include also under render and in macro bodies), 1/8 'recursive'. "
-        "Three raw-source programs with inline snippets (outside the model) are judged by the oracle only. Each program is analysed "
+        "Twelve raw-source programs (inline snippets; for / tablerow with limit, offset, cols, reversed in every combination -- outside the model) are judged by the oracle only. Each program is analysed "
         "(analyze and analyze_async) and rendered with 3-5 data sets (render and render_async) under the trace wrappers; quick 80 "
         "programs, thorough 1500. distinct = distinct program text; non-trivial = at least two include/render tags."
     )
